@@ -1463,6 +1463,9 @@ class tensor:
         if len(grps.shape) == 1:
             grps = np.array([grps])
 
+        if np.unique(grps).size != grps.size:
+            assert False, "Cannot have overlapping symmetries"
+
         data = self.data.copy()
 
         # Use default newer faster version
